@@ -34,6 +34,7 @@ type op struct {
 	N    int    // batch constructor 0..3 / size hint
 	Wrap int    // 0 none, 1 SyncBatch, 2 BufferBatch
 	Fail bool   // helper callback returns an error
+	Boom bool   // helper callback panics after its writes (the caller recovers): nothing may be applied
 	Sub  []op   // operations done inside the Update/Write callback
 }
 
@@ -75,7 +76,7 @@ func (o op) String() string {
 			subs = append(subs, s.String())
 		}
 		name := map[string]string{"update": "Update", "write": "Write"}[o.Kind]
-		return fmt.Sprintf("%s.%s(func{%s; return fail=%v})", tgt, name, strings.Join(subs, "; "), o.Fail)
+		return fmt.Sprintf("%s.%s(func{%s; return fail=%v panic=%v})", tgt, name, strings.Join(subs, "; "), o.Fail, o.Boom)
 	}
 	return tgt + "." + o.Kind + "()"
 }
@@ -387,7 +388,11 @@ func (g *gen) next(m *mdl) []op {
 				if indexed {
 					kind = "update"
 				}
-				return []op{{Obj: "store", Kind: kind, Sub: g.subOps(indexed), Fail: rng.IntN(3) == 0}}
+				o := op{Obj: "store", Kind: kind, Sub: g.subOps(indexed), Fail: rng.IntN(3) == 0}
+				if !o.Fail && rng.IntN(6) == 0 {
+					o.Boom = true
+				}
+				return []op{o}
 			case y < 96:
 				if !g.flushy {
 					continue
@@ -556,6 +561,23 @@ func (g *gen) next(m *mdl) []op {
 // ---------------------------------------------------------------- the real backends
 
 var errCb = errors.New("harness callback error")
+
+var errBoom = errors.New("harness callback panic")
+
+// guardBoom runs a helper call whose callback may panic with errBoom (an aborted caller: the
+// helper must not have applied anything); any other panic is passed on.
+func guardBoom(f func() error) (err error, boom bool) {
+	defer func() {
+		if p := recover(); p != nil {
+			if p == error(errBoom) {
+				boom = true
+				return
+			}
+			panic(p)
+		}
+	}()
+	return f(), false
+}
 
 func errClass(err error) string {
 	switch {
@@ -975,29 +997,45 @@ func (r *real) do(o *op) (res string) {
 			return "ok"
 		case "update":
 			var sb strings.Builder
-			err := st.Update(func(ib db.IndexedBatch) error {
-				b := &rBatch{w: ib, r: ib}
-				for i := range o.Sub {
-					sb.WriteString(r.batchOp(b, &o.Sub[i]) + ";")
-				}
-				if o.Fail {
-					return errCb
-				}
-				return nil
+			err, boom := guardBoom(func() error {
+				return st.Update(func(ib db.IndexedBatch) error {
+					b := &rBatch{w: ib, r: ib}
+					for i := range o.Sub {
+						sb.WriteString(r.batchOp(b, &o.Sub[i]) + ";")
+					}
+					if o.Boom {
+						panic(errBoom)
+					}
+					if o.Fail {
+						return errCb
+					}
+					return nil
+				})
 			})
+			if boom {
+				return sb.String() + "ret=panic"
+			}
 			return sb.String() + "ret=" + ec(err)
 		case "write":
 			var sb strings.Builder
-			err := st.Write(func(wb db.Batch) error {
-				b := &rBatch{w: wb}
-				for i := range o.Sub {
-					sb.WriteString(r.batchOp(b, &o.Sub[i]) + ";")
-				}
-				if o.Fail {
-					return errCb
-				}
-				return nil
+			err, boom := guardBoom(func() error {
+				return st.Write(func(wb db.Batch) error {
+					b := &rBatch{w: wb}
+					for i := range o.Sub {
+						sb.WriteString(r.batchOp(b, &o.Sub[i]) + ";")
+					}
+					if o.Boom {
+						panic(errBoom)
+					}
+					if o.Fail {
+						return errCb
+					}
+					return nil
+				})
 			})
+			if boom {
+				return sb.String() + "ret=panic"
+			}
 			return sb.String() + "ret=" + ec(err)
 		case "close":
 			r.closed = true
